@@ -282,20 +282,38 @@ func c16R1R2(p *Prog, r *Report) {
 			src := ArgForParam(rd.Path, ren.Call.Args[0])
 			srcKey := tmpKey(rd, ren.Call.Args[0], 0)
 			good := false
+			privateWhy := ""
 			msg := "the source of the publishing rename is not the file written by a dominating, error-checked viper.WriteConfigAs"
 			InstrsDeep(fn, 2, func(wd DeepInstr) {
 				w, ok := wd.In.(*ssa.Call)
 				if ok && strings.HasPrefix(CalleeName(&w.Call), viperPkg+".SafeWriteConfigAs") && !good {
 					msg = "the temporary file is written with viper.SafeWriteConfigAs at " + p.InstrPos(w) + ", which refuses to overwrite an existing file: after one save interrupted between the write and the rename the left-over temporary file makes every later save fail, and the live config file is never updated again"
 				}
-				if !ok || !strings.HasPrefix(CalleeName(&w.Call), viperPkg+".WriteConfigAs") {
+				if !ok {
+					return
+				}
+				// the writer: the package function (the shared store) or the method on a store of its own
+				var fileArg, inst ssa.Value
+				switch {
+				case strings.HasPrefix(CalleeName(&w.Call), viperPkg+".WriteConfigAs"):
+					fileArg = w.Call.Args[0]
+				case CalleeName(&w.Call) == "(*"+viperPkg+".Viper).WriteConfigAs" && len(w.Call.Args) == 2:
+					inst, fileArg = w.Call.Args[0], w.Call.Args[1]
+				default:
 					return
 				}
 				if os.Getenv("DLINT_DEBUG_C16") != "" {
-					fmt.Fprintln(os.Stderr, "C16 writer", tmpKey(wd, w.Call.Args[0], 0), "rename src", srcKey, "dom", DeepDominates(wd, rd))
+					fmt.Fprintln(os.Stderr, "C16 writer", tmpKey(wd, fileArg, 0), "rename src", srcKey, "dom", DeepDominates(wd, rd))
 				}
-				if ArgForParam(wd.Path, w.Call.Args[0]) != src && (strings.Contains(srcKey, "?") || tmpKey(wd, w.Call.Args[0], 0) != srcKey) {
+				if ArgForParam(wd.Path, fileArg) != src && (strings.Contains(srcKey, "?") || tmpKey(wd, fileArg, 0) != srcKey) {
 					return
+				}
+				if inst != nil {
+					// a private store: the file holds what that store was given, so it must have been
+					// given every setting of the shared store (what was loaded at start-up included)
+					if why := c16PrivateStoreComplete(p, inst); why != "" {
+						privateWhy = why
+					}
 				}
 				if !DeepDominates(wd, rd) {
 					return
@@ -409,6 +427,10 @@ func c16R1R2(p *Prog, r *Report) {
 			if isM[src] {
 				good = false
 				msg = "the temporary file and the live config file are the same value"
+			}
+			if good && privateWhy != "" {
+				good = false
+				msg = privateWhy
 			}
 			r.Check(good, "C16.R2", "publishing rename in "+FuncName(fn), p.InstrPos(ren), "complete temporary file, then atomic rename onto the live config path", msg)
 		}
@@ -1169,4 +1191,85 @@ func localMapAliases(fn *ssa.Function) func(ssa.Value) ssa.Value {
 		}
 		return v
 	}
+}
+
+// c16PrivateStoreComplete: inst is a configuration store of its own (viper.New()) that is written
+// to the file in place of the shared store.  It must have been filled from the shared store's
+// whole contents: a loop over viper.AllSettings() that sets every key on it.  Returns "" when that
+// is so, else what is wrong.
+func c16PrivateStoreComplete(p *Prog, inst ssa.Value) string {
+	// where the store was made: follow the value back through a helper's result
+	var made *ssa.Call
+	var seek func(v ssa.Value, d int)
+	seek = func(v ssa.Value, d int) {
+		if v == nil || d > 4 || made != nil {
+			return
+		}
+		switch x := v.(type) {
+		case *ssa.Call:
+			if CalleeName(&x.Call) == viperPkg+".New" {
+				made = x
+				return
+			}
+			if g := x.Call.StaticCallee(); isModuleFn(g) {
+				Instrs(g, func(in ssa.Instruction) {
+					if ret, ok := in.(*ssa.Return); ok {
+						for _, rv := range ret.Results {
+							if strings.HasSuffix(rv.Type().String(), "viper.Viper") {
+								seek(rv, d+1)
+							}
+						}
+					}
+				})
+			}
+		case *ssa.Extract:
+			if call, ok := x.Tuple.(*ssa.Call); ok {
+				if g := call.Call.StaticCallee(); isModuleFn(g) {
+					Instrs(g, func(in ssa.Instruction) {
+						if ret, ok := in.(*ssa.Return); ok && x.Index < len(ret.Results) {
+							seek(returnedValue(ret, x.Index), d+1)
+						}
+					})
+				}
+			}
+		case *ssa.Phi:
+			for _, e := range x.Edges {
+				seek(e, d+1)
+			}
+		case *ssa.UnOp:
+			if rv := resolveCell(x); rv != nil && rv != ssa.Value(x) {
+				seek(rv, d+1)
+			}
+		}
+	}
+	seek(inst, 0)
+	if made == nil {
+		return "the store that is written to the file is not the shared one, and where it was filled could not be followed"
+	}
+	fn := made.Parent()
+	full := false
+	Instrs(fn, func(in ssa.Instruction) {
+		rg, ok := in.(*ssa.Range)
+		if !ok {
+			return
+		}
+		src, ok := rg.X.(*ssa.Call)
+		if !ok || CalleeName(&src.Call) != viperPkg+".AllSettings" {
+			return
+		}
+		// a Set on the private store inside that loop
+		Instrs(fn, func(y ssa.Instruction) {
+			cc := CallOf(y)
+			if cc == nil || CalleeName(cc) != "(*"+viperPkg+".Viper).Set" || len(cc.Args) == 0 {
+				return
+			}
+			if (cc.Args[0] == ssa.Value(made) || resolveCell(cc.Args[0]) == ssa.Value(made)) && BlockReaches(rg.Block(), y.Block()) && InLoop(y) {
+				full = true
+			}
+		})
+	})
+	if full {
+		return ""
+	}
+	return "the file is written from a store of its own made at " + p.InstrPos(made) + " that is not filled from the shared store's whole contents (no loop over viper.AllSettings() setting every key on it): it holds only what was set on it in this run, so settings that were loaded from the file at start-up and not published again (the trigger settings, when no source was started) are dropped from the saved file"
 }
